@@ -91,14 +91,53 @@ Definition rhs_col_is_zero (g : mr_args F) (j : nat) : bool :=
 
 (* whatever the loop did (NaN included: 0/0 in line 82 for an exactly zero column), the output column is
    masked_fill_(…, 0) and then multiplied by rhs_norm = 1 *)
+(* what lines 49-57 compute, field by field *)
+Lemma prepare_is_zero_eq (g : mr_args F) :
+  u_rhs_is_zero (mr_prepare A S g) = mkseq (rhs_col_is_zero g) (size (g_rhs g)).
+Proof.
+rewrite /mr_prepare [u_rhs_is_zero _]/=.
+apply/eq_in_map => j; rewrite mem_iota add0n => /andP[_ hj].
+by rewrite sget_stab.
+Qed.
+
+Lemma prepare_is_zero (g : mr_args F) j :
+  j < size (g_rhs g) -> bget (u_rhs_is_zero (mr_prepare A S g)) j = rhs_col_is_zero g j.
+Proof. by move=> hj; rewrite prepare_is_zero_eq bget_mkseq. Qed.
+
+Lemma prepare_norm (g : mr_args F) j :
+  j < size (g_rhs g) ->
+  sget A (u_rhs_norm (mr_prepare A S g)) j =
+  if rhs_col_is_zero g j then a1 A else norm2 A (g_n g) (cget (g_rhs g) j).
+Proof.
+move=> hj; rewrite /mr_prepare [u_rhs_norm _]/= sget_stab //; cbv beta.
+by rewrite bget_mkseq // sget_stab.
+Qed.
+
+Lemma prepare_rhs (g : mr_args F) :
+  u_rhs (mr_prepare A S g) =
+  ctab (size (g_rhs g)) (g_n g)
+       (fun j i => adiv A (cg2 A (g_rhs g) j i) (sget A (u_rhs_norm (mr_prepare A S g)) j)).
+Proof. by []. Qed.
+
+Lemma prepare_misc (g : mr_args F) :
+  [/\ u_C (mr_prepare A S g) = size (g_rhs g), u_Q (mr_prepare A S g) = shifts_Q g,
+      u_pre (mr_prepare A S g) = (if g_pre g is Some f then f else (fun X => X))
+    & u_iters (mr_prepare A S g) = (minn (odflt (s_max_cg_iterations S) (g_max_iter g)) (g_n g).+1).+2].
+Proof. by []. Qed.
+
+Lemma finish_get (g : mr_args F) (u : mr_setup F) (sl : qcols F) k q j i :
+  q < u_Q u -> j < u_C u -> i < g_n g ->
+  xget A (o_sol (mr_finish A g u sl k)) q j i =
+  amul A (if bget (u_rhs_is_zero u) j then a0 A else xget A sl q j i) (sget A (u_rhs_norm u) j).
+Proof. by move=> hq hj hi; rewrite /mr_finish [o_sol _]/o_sol xget_xtab. Qed.
+
 Lemma minres_zero_rhs_any (g : mr_args F) q j i :
   q < shifts_Q g -> j < size (g_rhs g) -> i < g_n g -> rhs_col_is_zero g j ->
   xget A (o_sol (minres A S g)) q j i = amul A (a0 A) (a1 A).
 Proof.
 move=> hq hj hi hz.
-rewrite /minres; case: (st_loop _ _ _ _ _ _ _ _ _ _ _ _ _) => s k /=.
-rewrite xget_xtab //= !(bget_mkseq, sget_stab) //.
-by move: hz; rewrite /rhs_col_is_zero => ->.
+rewrite /minres; case: (st_loop _ _ _ _ _ _ _ _ _ _ _ _ _) => s k.
+by rewrite finish_get // prepare_is_zero // prepare_norm // hz.
 Qed.
 
 (* ---- the stopping rule ---- *)
@@ -113,7 +152,11 @@ Lemma st_iterS k s : st_iter k.+1 s = st_step (st_iter k s).
 Proof. by []. Qed.
 
 Lemma st_iter_step k s : st_iter k (st_step s) = st_step (st_iter k s).
-Proof. by elim: k => [|k IH] //=; rewrite IH. Qed.
+Proof.
+elim: k => [|k IH]; first by reflexivity.
+change (st_step (st_iter k (st_step s)) = st_step (st_step (st_iter k s))).
+rewrite IH; reflexivity.
+Qed.
 
 (* the loop returns the state after k bodies where k is the first index (counting from i) at which the
    convergence test fires, or all `fuel` bodies if it never fires; the test is only looked at when
